@@ -384,13 +384,20 @@ class Fn:
             for i, st in enumerate(b.get("stmts", [])):
                 if st["k"] == "assign":
                     p = st["dst"]
-                    d[p["l"]].append((b["id"], i, "assign" if is_plain_local(p) else "partial"))
+                    if is_plain_local(p):
+                        d[p["l"]].append((b["id"], i, "assign"))
+                    elif p["p"][0] != "deref":
+                        d[p["l"]].append((b["id"], i, "partial"))
+                    # stores through a deref write the pointee, not the local
                 elif st["k"] == "setdiscr":
                     d[st["dst"]["l"]].append((b["id"], i, "partial"))
             t = b.get("term")
             if t and t["k"] == "call":
                 p = t["dst"]
-                d[p["l"]].append((b["id"], "term", "call" if is_plain_local(p) else "partial"))
+                if is_plain_local(p):
+                    d[p["l"]].append((b["id"], "term", "call"))
+                elif p["p"][0] != "deref":
+                    d[p["l"]].append((b["id"], "term", "partial"))
             elif t and t["k"] == "yield":
                 p = t["resume_arg"]
                 d[p["l"]].append((b["id"], "term", "yield" if is_plain_local(p) else "partial"))
@@ -398,11 +405,18 @@ class Fn:
         return d
 
     def single_def(self, l):
-        """(block, idx) of the unique whole assignment of local l, or None."""
-        ds = [x for x in self.defs().get(l, []) if x[2] != "partial"]
+        """(block, idx) of the unique whole assignment of local l, or None.  Locals that are also
+        written field-by-field are never single-def (their value depends on the program point)."""
+        all_ds = self.defs().get(l, [])
+        if any(x[2] == "partial" for x in all_ds):
+            return None
+        ds = [x for x in all_ds if x[2] != "partial"]
         if len(ds) == 1 and not self.is_param(l):
             return ds[0]
         return None
+
+    def has_partial_defs(self, l):
+        return any(x[2] == "partial" for x in self.defs().get(l, []))
 
     def def_rvalue(self, l):
         """('rv', rvalue) / ('call', term) for a single-def local, else None."""
